@@ -297,6 +297,11 @@ func genC06(g *Rng, tier string, emit func(Op)) {
 		s := buildSession(g, specs, randSecret(g), false)
 		emit(listOp(s.keys, s.trees, s.ctx, s.nonce, false, nil, fmt.Sprintf("multi-credential-commitments-%d", len(shape)), "accept"))
 	}
+	// the issuer sends a fresh nonce and the holder proves its commitment again with the same
+	// builder: the second proof verifies for the second nonce (and an honest run goes on from there)
+	for i := 0; i < 2; i++ {
+		emit(recommitRun(g, keys[0], i == 1))
+	}
 	// a commitment that is no group element, with the challenge that counts it in as (U, 0)
 	for _, o := range forgedNonunitUOps(g, keys[0], g.bits(256), g.bits(80), false, "C06/forged-nonunit-U") {
 		emit(o)
@@ -565,4 +570,49 @@ func legacyKeyshareRun(g *Rng, kp *KeyPair, mergeFirst bool) Op {
 	}()
 	return Op{"op": "recorded", "class": fmt.Sprintf("legacy-keyshare-issuance-mergefirst%v", mergeFirst), "label": "issued", "nomodel": true,
 		"fkey": "C06/legacy-keyshare-issuance", "result": res, "key": kp.id}
+}
+
+func recommitRun(g *Rng, kp *KeyPair, blind bool) Op {
+	pk := kp.pk
+	res := func() (r string) {
+		defer func() {
+			if e := recover(); e != nil {
+				r = fmt.Sprintf("panic: %v", e)
+			}
+		}()
+		ctx, nonce2 := g.bits(256), g.bits(80)
+		var bl []int
+		if blind {
+			bl = []int{1}
+		}
+		cb, err := gabi.NewCredentialBuilder(pk, ctx, randSecret(g), nonce2, nil, bl)
+		if err != nil {
+			return "failed: " + err.Error()
+		}
+		var msg *gabi.IssueCommitmentMessage
+		for round := 0; round < 3; round++ {
+			nonce1 := g.bits(80)
+			msg, err = cb.CommitToSecretAndProve(nonce1)
+			if err != nil {
+				return "failed: " + err.Error()
+			}
+			if !msg.Proofs.Verify([]*gabikeysPublicKey{pk}, ctx, nonce1, false, nil) {
+				return fmt.Sprintf("failed: commitment proof %d does not verify for its nonce", round+1)
+			}
+		}
+		attrs := []*big.Int{g.bits(100), g.bits(100)}
+		if blind {
+			attrs[1] = nil
+		}
+		ism, err := gabi.NewIssuer(kp.sk, pk, ctx).IssueSignature(msg.U, attrs, nil, nonce2, bl)
+		if err != nil {
+			return "failed: issuer: " + err.Error()
+		}
+		if _, err := cb.ConstructCredential(ism, attrs); err != nil {
+			return "failed: holder: " + err.Error()
+		}
+		return "issued"
+	}()
+	return Op{"op": "recorded", "class": fmt.Sprintf("commitment-proved-again-blind%v", blind), "label": "issued", "nomodel": true,
+		"fkey": "C06/commitment-proved-again", "result": res, "key": kp.id}
 }
